@@ -6,6 +6,7 @@ package main
 
 import (
 	"bufio"
+	"os"
 	"fmt"
 	"io"
 	"os/exec"
@@ -19,6 +20,7 @@ const (
 	Z3 SolverKind = iota
 	Z3New
 	CVC5
+	CVC5Int // cvc5 --solve-bv-as-int=sum (one-shot fallback for wrap-around-heavy arithmetic)
 )
 
 func (k SolverKind) String() string {
@@ -29,6 +31,8 @@ func (k SolverKind) String() string {
 		return "z3-new-5.1.0"
 	case CVC5:
 		return "cvc5-1.0"
+	case CVC5Int:
+		return "cvc5-1.0 --solve-bv-as-int=sum"
 	}
 	return "?"
 }
@@ -48,6 +52,14 @@ type Solver struct {
 	Restarts  int
 	buf       strings.Builder
 	Log       io.Writer // optional transcript
+	scopes    []scopeRec
+	emitOrder []int
+	trackOrder bool
+	inQuery   bool
+	Slowest   time.Duration
+	Hist      [5]int
+	HistT     [2]time.Duration
+	SlowCount int
 }
 
 func NewSolver(kind SolverKind, ctx *TermCtx, timeoutMs int) *Solver {
@@ -64,7 +76,11 @@ func (s *Solver) start() {
 	case Z3New:
 		cmd = exec.Command("z3-new", "-in", fmt.Sprintf("-t:%d", s.timeoutMs))
 	case CVC5:
-		cmd = exec.Command("/usr/bin/cvc5", "--incremental", "--produce-models", "--lang=smt2", fmt.Sprintf("--tlimit-per=%d", s.timeoutMs), "--fp-exp")
+		args := []string{"--incremental", "--produce-models", "--lang=smt2", fmt.Sprintf("--tlimit-per=%d", s.timeoutMs), "--fp-exp"}
+		if os.Getenv("SYMGO_CVC5_INT") != "" {
+			args = append(args, "--solve-bv-as-int=sum")
+		}
+		cmd = exec.Command("/usr/bin/cvc5", args...)
 	}
 	in, err := cmd.StdinPipe()
 	if err != nil {
@@ -82,6 +98,8 @@ func (s *Solver) start() {
 	s.emitted = map[int]bool{}
 	s.ufs = map[string]bool{}
 	s.SinceBoot = 0
+	s.scopes = nil
+	s.emitOrder = nil
 	if s.kind == CVC5 {
 		s.send("(set-logic ALL)\n")
 	} else {
@@ -140,12 +158,18 @@ func (s *Solver) emit(t *Term) {
 			continue
 		}
 		s.emitted[x.ID] = true
+		if n := len(s.scopes); n > 0 {
+			s.scopes[n-1].emitted = append(s.scopes[n-1].emitted, x.ID)
+		}
 		if x.Op == "var" {
 			fmt.Fprintf(&s.buf, "(declare-const %s %s)\n", smtName(x), x.Sort)
 			continue
 		}
 		if x.Op == "uf" && !s.ufs[x.S] {
 			s.ufs[x.S] = true
+			if n := len(s.scopes); n > 0 {
+				s.scopes[n-1].ufs = append(s.scopes[n-1].ufs, x.S)
+			}
 			fmt.Fprintf(&s.buf, "(declare-fun |uf_%s| (", x.S)
 			for i, a := range x.Args {
 				if i > 0 {
@@ -363,4 +387,243 @@ func parseSexp(in string) (*sexp, error) {
 		return &sexp{atom: in[start:pos]}, nil
 	}
 	return parse()
+}
+
+// OneShot decides the conjunction of lits in a fresh solver process with plain assertions (so
+// that the solver's full preprocessing / tactic pipeline applies, which the incremental core
+// does not use). Used when the incremental answer is "unknown". Returns the verdict and, for
+// sat, model values of the requested terms.
+func (s *Solver) OneShot(lits []*Term, want []*Term, timeoutMs int) (string, map[int]string) {
+	return s.OneShotKind(s.kind, lits, want, timeoutMs)
+}
+
+func (s *Solver) OneShotKind(kind SolverKind, lits []*Term, want []*Term, timeoutMs int) (string, map[int]string) {
+	tmp := &Solver{kind: kind, ctx: s.ctx, emitted: map[int]bool{}, ufs: map[string]bool{}}
+	for _, l := range lits {
+		tmp.emit(l)
+	}
+	var wanted []*Term
+	for _, t := range want {
+		if !t.Const && tmp.emitted[t.ID] {
+			wanted = append(wanted, t)
+		}
+	}
+	var sb strings.Builder
+	sb.WriteString("(set-option :produce-models true)\n")
+	if kind == CVC5 || kind == CVC5Int {
+		sb.WriteString("(set-logic ALL)\n")
+	}
+	sb.WriteString(tmp.buf.String())
+	for _, l := range lits {
+		if l.Const {
+			if l.U == 0 {
+				return "unsat", nil
+			}
+			continue
+		}
+		sb.WriteString("(assert " + smtName(l) + ")\n")
+	}
+	sb.WriteString("(check-sat)\n")
+	if len(wanted) > 0 {
+		sb.WriteString("(get-value (")
+		for _, t := range wanted {
+			sb.WriteString(smtName(t) + " ")
+		}
+		sb.WriteString("))\n")
+	}
+	var cmd *exec.Cmd
+	switch kind {
+	case Z3:
+		cmd = exec.Command("/usr/bin/z3", "-in", fmt.Sprintf("-T:%d", (timeoutMs+999)/1000))
+	case Z3New:
+		cmd = exec.Command("z3-new", "-in", fmt.Sprintf("-T:%d", (timeoutMs+999)/1000))
+	case CVC5:
+		cmd = exec.Command("/usr/bin/cvc5", "--produce-models", "--lang=smt2", fmt.Sprintf("--tlimit=%d", timeoutMs), "--fp-exp")
+	case CVC5Int:
+		cmd = exec.Command("/usr/bin/cvc5", "--produce-models", "--lang=smt2", fmt.Sprintf("--tlimit=%d", timeoutMs), "--solve-bv-as-int=sum")
+	}
+	cmd.Stdin = strings.NewReader(sb.String())
+	t0 := time.Now()
+	outb, _ := cmd.CombinedOutput()
+	s.Time += time.Since(t0)
+	s.Queries++
+	out := string(outb)
+	first := strings.TrimSpace(strings.SplitN(strings.TrimSpace(out), "\n", 2)[0])
+	if first != "sat" && first != "unsat" && strings.Contains(out, "(error") {
+		lastSolverError = out
+		return "error", nil
+	}
+	switch first {
+	case "unsat":
+		return "unsat", nil
+	case "sat":
+		vals := map[int]string{}
+		rest := strings.SplitN(strings.TrimSpace(out), "\n", 2)
+		if len(rest) == 2 && len(wanted) > 0 {
+			if sx, err := parseSexp(rest[1]); err == nil {
+				byName := map[string]string{}
+				for _, pair := range sx.list {
+					if len(pair.list) == 2 {
+						byName[pair.list[0].String()] = pair.list[1].String()
+					}
+				}
+				for _, t := range wanted {
+					if v, ok := byName[smtName(t)]; ok {
+						vals[t.ID] = v
+					} else if v, ok := byName[strings.Trim(smtName(t), "|")]; ok {
+						vals[t.ID] = v
+					}
+				}
+			}
+		}
+		return "sat", vals
+	}
+	return "unknown", nil
+}
+
+// ---------- scoped (push/pop) mode ----------
+//
+// CheckPC keeps the solver's assertion stack equal to a path condition (one scope per literal)
+// and asks each query as push/assert/check-sat/pop on top of it. Depth-first exploration makes
+// consecutive queries share long prefixes, so internalised formulas and learned clauses are
+// reused. Definitions made inside a scope disappear when it is popped; they are tracked per
+// level and re-emitted on demand.
+
+type scopeRec struct {
+	node    *PC
+	emitted []int
+	ufs     []string
+}
+
+func (s *Solver) emitScoped(t *Term) { s.emit(t) }
+
+func (s *Solver) popTo(n int) {
+	if n >= len(s.scopes) {
+		return
+	}
+	k := len(s.scopes) - n
+	for _, sc := range s.scopes[n:] {
+		for _, id := range sc.emitted {
+			delete(s.emitted, id)
+		}
+		for _, u := range sc.ufs {
+			delete(s.ufs, u)
+		}
+	}
+	s.scopes = s.scopes[:n]
+	fmt.Fprintf(&s.buf, "(pop %d)\n", k)
+}
+
+// CheckPC decides pc ∧ extra.
+func (s *Solver) CheckPC(pc *PC, extra ...*Term) string {
+	for _, e := range extra {
+		if e.IsFalse() {
+			return "unsat"
+		}
+	}
+	if s.SinceBoot > 20000 {
+		s.restart()
+	}
+	t0 := time.Now()
+	s.buf.Reset()
+	// align the scope stack with pc
+	chain := make([]*PC, 0, 64)
+	for q := pc; q != nil; q = q.parent {
+		chain = append(chain, q)
+	}
+	// chain is leaf..root; find the longest common prefix with s.scopes (root..)
+	n := 0
+	for n < len(s.scopes) && n < len(chain) && s.scopes[n].node == chain[len(chain)-1-n] {
+		n++
+	}
+	s.popTo(n)
+	for i := len(chain) - 1 - n; i >= 0; i-- {
+		node := chain[i]
+		s.buf.WriteString("(push 1)\n")
+		s.scopes = append(s.scopes, scopeRec{node: node})
+		if !node.lit.IsTrue() {
+			s.emitScoped(node.lit)
+			fmt.Fprintf(&s.buf, "(assert %s)\n", s.ctx.ref(node.lit))
+		}
+	}
+	// the query scope
+	s.buf.WriteString("(push 1)\n")
+	s.scopes = append(s.scopes, scopeRec{})
+	for _, e := range extra {
+		if e.IsTrue() {
+			continue
+		}
+		s.emitScoped(e)
+		fmt.Fprintf(&s.buf, "(assert %s)\n", s.ctx.ref(e))
+	}
+	s.buf.WriteString("(check-sat)\n(echo \"DONE\")\n")
+	s.send(s.buf.String())
+	out := s.readUntilDone()
+	s.Queries++
+	s.SinceBoot++
+	dt := time.Since(t0)
+	s.Time += dt
+	switch {
+	case dt < 5*time.Millisecond:
+		s.Hist[0]++
+	case dt < 50*time.Millisecond:
+		s.Hist[1]++
+	case dt < 500*time.Millisecond:
+		s.Hist[2]++
+	case dt < 1400*time.Millisecond:
+		s.Hist[3]++
+	default:
+		s.Hist[4]++
+	}
+	s.HistT[map[bool]int{true: 0, false: 1}[dt < 50*time.Millisecond]] += dt
+	if dt > s.Slowest {
+		s.Slowest = dt
+	}
+	if dt > 500*time.Millisecond {
+		s.SlowCount++
+		if slowLog != "" && s.SlowCount <= 3 {
+			dumpSlow(s, pc, extra, dt, strings.TrimSpace(out))
+		}
+	}
+	s.inQuery = true
+	if strings.Contains(out, "(error") {
+		lastSolverError = out
+		s.restart()
+		return "error"
+	}
+	res := strings.TrimSpace(out)
+	switch res {
+	case "sat", "unsat":
+		return res
+	}
+	if strings.HasPrefix(res, "unknown") || strings.Contains(res, "timeout") {
+		return "unknown"
+	}
+	lastSolverError = out
+	s.restart()
+	return "error"
+}
+
+var slowLog = os.Getenv("SYMGO_SLOWLOG")
+
+func dumpSlow(s *Solver, pc *PC, extra []*Term, dt time.Duration, res string) {
+	tmp := &Solver{kind: s.kind, ctx: s.ctx, emitted: map[int]bool{}, ufs: map[string]bool{}}
+	lits := append(pc.lits(), extra...)
+	for _, l := range lits {
+		tmp.emit(l)
+	}
+	var sb strings.Builder
+	fmt.Fprintf(&sb, "; %s took %v\n", res, dt)
+	sb.WriteString(tmp.buf.String())
+	for _, l := range lits {
+		if !l.Const {
+			sb.WriteString("(assert " + smtName(l) + ")\n")
+		}
+	}
+	sb.WriteString("(check-sat)\n")
+	f, err := os.OpenFile(fmt.Sprintf("%s.%d.%d.smt2", slowLog, os.Getpid(), time.Now().UnixNano()), os.O_CREATE|os.O_WRONLY, 0644)
+	if err == nil {
+		f.WriteString(sb.String())
+		f.Close()
+	}
 }
